@@ -319,3 +319,8 @@ def run(ctx):
             detail = "every iteration of the halt loop sends WorkerMessage::Compact for this keyspace before it sleeps" if ok else \
                 "the write-halt loop only sleeps and re-reads l0_run_count(): nobody requests the compaction it waits for — when the post-flush Compact messages were consumed while another compaction ran, writers stay parked forever on an idle database"
         ctx.ob("R-C14.7", cwh, "halted-writer-requests-compaction", ok, detail)
+
+    # ---- borrowed obligations (mechanisms owned by other properties that this property's verdict also rests on)
+    # single-writer read-modify-write helpers are linearizable only if the snapshot is taken after the lock
+    ctx.borrow("C08", ["R-C08.5"], "R-C14.8")
+
